@@ -77,6 +77,11 @@ CLAIMED = {
    "DESIGN.md §6 C18",
    "two independent transcriptions of the ABNF (Lean, Rust); exhaustive-to-length differential; regenerated grammar.",
    "Lean 4 RFC 8259 transcription + reference denotation of the regenerated grammar + exhaustive-to-length differential against JsonParser"),
+ "C09": ("other",
+   "Totality of the Rust front-end cannot be proved by a model of it, so it is sampled hard: tens of thousands of mutated real grammars (delimiters, escapes, numeric edge values, non-scalar \\u{…}, non-ASCII, truncations) go through parse_and_optimize and docs::consume in child processes where a panic, abort or time-out is an observation attributed to its text; every error must carry a location inside the text and render. The Lean side covers the modelled panic sites of the back half (unrollF_total: unroll cannot panic on the counts the reader lets through; optimize on the regenerated grammars is kernel-evaluated in C14). One genuine defect was fixed (expect/unwrap on non-scalar escapes and PEEK indices) and one is recorded (native stack overflow on very deep nesting).",
+   "DESIGN.md §6 C09",
+   "sampling in child processes; partial by nature (DESIGN §6 C09); repetition counts bounded as the property states.",
+   "child-process totality sampling on mutated grammars + Lean 4 lemmas on modelled panic sites"),
 }
 REASON_TODO = "not claimed yet: machinery for this property is not built in the committed tree (planned in DESIGN.md §6); no check is registered rather than an unsound one"
 
